@@ -495,3 +495,96 @@ MK_FUN = Contract(
     note="C13 (second sentence): the generated source lists, after the argument stores, exactly the tasks set_value would run for these "
          "locations (start = the argument locations and their enclosing containers), once each, in dependency order")
 CONTRACTS += [MK_FUN]
+
+
+# ----------------------------------------------------------------------------- run_tasks re-establishes consistency   (C01)
+# Cons(t, h): the location defined by task t holds the value of its expression on the current data
+hread = z3.Function("heap_read", V, V, V)             # heap, location -> value
+
+
+def cons(tk, h):
+    return hread(h, task_id(tk)) == evalv(task_expr(tk), h)
+
+
+def frame_axioms(m):
+    """trusted heap frame (DESIGN section 3: frame and prefix lemmas; C05 gives dependencies == locs(expr), tree-shaped data):
+    a store to a task's target location changes neither the value of an expression none of whose dependencies it writes,
+    nor the content of another task's target location, and is read back"""
+    h, v_, w_, r_ = z3.Consts("h!fa v!fa w!fa r!fa", V)
+    return [
+        z3.ForAll([h, w_, v_], hread(hstore(h, task_id(w_), v_), task_id(w_)) == v_, patterns=[hstore(h, task_id(w_), v_)]),
+        z3.ForAll([h, w_, r_, v_], z3.Implies(T.card(w_, r_) == 0,
+                                             evalv(task_expr(r_), hstore(h, task_id(w_), v_)) == evalv(task_expr(r_), h)),
+                  patterns=[evalv(task_expr(r_), hstore(h, task_id(w_), v_))]),
+        z3.ForAll([h, w_, r_, v_], z3.Implies(task_id(w_) != task_id(r_),
+                                             hread(hstore(h, task_id(w_), v_), task_id(r_)) == hread(h, task_id(r_))),
+                  patterns=[hread(hstore(h, task_id(w_), v_), task_id(r_))]),
+        # every task is an expression task: run() = evaluate, then one store (ExprTask.run, proved above)
+        z3.ForAll([h, w_], run_eff(w_, h) == hstore(h, task_id(w_), evalv(task_expr(w_), h)), patterns=[run_eff(w_, h)]),
+    ]
+
+
+def acyc(m):
+    """Acyc (precondition named in the statement's exclusions): in the declared ordering graph no task feeds itself and no edge
+    closes a cycle.  Nested-container siblings violate it: known finding K1."""
+    A = m.rtasks
+    return z3.And(
+        z3.ForAll([t], z3.Implies(m.tasks.has(t), T.card(m.tasks.get(t), m.tasks.get(t)) == 0), patterns=[m.tasks.get(t)]),
+        z3.ForAll([x, y], z3.Implies(z3.And(A.cnt(x, y) > 0, x != y), z3.Not(T.DD_R(A.arr, y, x))), patterns=[A.cnt(x, y)]))
+
+
+def _rs_in_sched(s, tid):
+    return S_in_stack(s.stack, s.pos, tid)
+
+
+from contracts.sorting import in_stack as S_in_stack      # noqa: E402
+
+
+def _rs_requires():
+    def sched(s):
+        m = s.self
+        L = s.tasks.value
+        clauses = dict(topo_post_counts(m, lambda v: z3.BoolVal(False), s.ids, s.stack, s.pos, PySet(m.tasks.dom)))
+        return z3.And(clauses["result-is-stack"], clauses["each-once"], clauses["positions"], clauses["closed-under-edges"],
+                      clauses["dependency-order"], clauses["within-P"],
+                      L.n == s.ids.n,
+                      z3.ForAll([i], z3.Implies(z3.And(0 <= i, i < L.n), z3.And(m.tasks.has(s.ids.at(i)), L.at(i) == m.tasks.get(s.ids.at(i)))),
+                                patterns=[L.at(i)]))
+    return [("explicit-list", lambda s: z3.Not(s.tasks.is_none)),
+            ("schedule (postcondition of find_tasks)", sched),
+            ("IdxWF:keys", lambda s: keys_ok(s.self)),
+            ("IdxWF:rtasks=F", lambda s: dict(idx_wf(s.self))["rtasks=F"]),
+            ("Acyc", lambda s: acyc(s.self)),
+            ("tasks outside the schedule are consistent", lambda s: z3.ForAll([t], z3.Implies(
+                z3.And(s.self.tasks.has(t), z3.Not(_rs_in_sched(s, t))), cons(s.self.tasks.get(t), s.heap.t)), patterns=[s.self.tasks.get(t)]))]
+
+
+def _rs_inv():
+    def g(L):
+        s = L.old
+        m = s.self
+        return z3.ForAll([t], z3.Implies(
+            z3.And(m.tasks.has(t), z3.Or(z3.Not(_rs_in_sched(s, t)), s.pos.cnt(t) - s.stack.lo < L.k)),
+            cons(m.tasks.get(t), L.cur.heap.t)), patterns=[m.tasks.get(t)])
+    return [("tasks outside the schedule and the first k scheduled ones are consistent", g),
+            ("index", lambda L: z3.And(0 <= L.k, L.k <= L.n))]
+
+
+RUN_SCHEDULE = Contract(
+    module=M, qualname="Manager.run_tasks",
+    params=dict(self=TMgr, tasks=TOpt(TSeq(TTask))), ghost=dict(heap=TV, runs=TSeq(TTask), ids=TSeq(TV), stack=TDeque(TV), pos=TCount),
+    requires=_rs_requires(),
+    axioms=[lambda s: z3.And(*frame_axioms(s.self)), lambda s: z3.And(*card_axioms())],
+    ensures=[("Cons: every expression-defined location equals its definition on the current data", lambda o, n, r: z3.ForAll(
+        [t], z3.Implies(o.self.tasks.has(t), cons(o.self.tasks.get(t), n.heap.t)), patterns=[o.self.tasks.get(t)]))],
+    raises={"UserError": dict(when=None, post=[], modifies=("heap", "runs"))},
+    modifies=("heap", "runs"),
+    loops={0: LoopSpec(anchor="tasks", invariants=_rs_inv(), modifies=("heap", "runs"))},
+    call_ghost={("Task.run", None): lambda st, pre: dict(heap=st.heap, runs=st.runs)},
+    defaults=dict(tasks=lambda: PyNone()),
+    min_obligations=4,
+    extra=dict(engine=TasksEngine, variant="consistency", ghost_writeback={"heap": "heap", "runs": "runs"}),
+    note="C01, the composition step: running a schedule with the find_tasks postcondition (each once, closed under the declared "
+         "edges, producers first) re-establishes consistency of every definition, given consistency of the tasks outside the "
+         "schedule, the index invariant, the heap frame axioms and Acyc")
+VARIANTS += [RUN_SCHEDULE]
